@@ -224,8 +224,14 @@ def run(res, tier, seed, driver_ok):
             try:
                 with contextlib.redirect_stdout(io.StringIO()):
                     W2 = Wrench(F.copy().reshape((6, 1)))
+                    # explicit joint vector while the arm is parked somewhere else; then the defaulted form at the configuration itself
+                    arm.FK(np.array([rnd.uniform(mins[i] * 0.5, maxs[i] * 0.5) for i in range(nj)]))
                     tm_ = np.asarray(arm.staticForcesWithLinkMasses(W2, th.copy()), dtype=float).reshape(-1)
+                    arm.FK(th.copy())
+                    tm_default = np.asarray(arm.staticForcesWithLinkMasses(Wrench(F.copy().reshape((6, 1)))), dtype=float).reshape(-1)
                     jt = arm.getJointTransforms()
+                if G.gt(np.max(np.abs(tm_ - tm_default)), 1e-9 * max(1.0, float(np.max(np.abs(tm_default))))):
+                    bad('linkmass:forms', 'staticForcesWithLinkMasses(W, q) from another stored state differs from the defaulted form at q', inp, {'explicit': tm_.tolist(), 'defaulted': tm_default.tolist()})
                 want = Js.T @ F
                 g = np.asarray(arm.grav, dtype=float)
                 for k in range(1, nj + 1):            # link k hangs on joints 0..k-1
